@@ -202,10 +202,35 @@ def concretise(op, n, nw, shift=0, last_only=False):
     return tuple(tuple(x) if isinstance(x, list) else x for x in op)
 
 
+def _circle_length(g, c):
+    """number of existing links on the longest-shortest chain the call c would turn into a circle (0: none)"""
+    kind = c[0]
+    if kind in ('pred_append', 'set_preds', 'lshift'):
+        nxt = g.succs           # new link arg -> receiver: a circle needs receiver ~> arg
+    elif kind in ('succ_append', 'set_succs', 'rshift'):
+        nxt = g.preds
+    else:
+        return 0
+    args = [c[2]] if kind.endswith('append') else list(c[2])
+    args = [a for a in args if isinstance(a, int) and not isinstance(a, bool)]
+    r = c[1]
+    if not isinstance(r, int) or r < 0:
+        return 0
+    dist = {r: 0}
+    todo = [r]
+    while todo:
+        x = todo.pop(0)
+        for y in nxt[x]:
+            if y not in dist:
+                dist[y] = dist[x] + 1
+                todo.append(y)
+    return max([dist.get(a, 0) for a in args] + [0])
+
+
 def resolve(op, g, nw, attrs):
     """Strip the bias flag and pick the concrete variant it asks for."""
     flag = ''
-    if isinstance(op[-1], str) and op[-1] in ('L', 'I', 'J', '') and op[0] not in ('sort',):
+    if isinstance(op[-1], str) and op[-1] in ('L', 'I', 'J', 'C', '') and op[0] not in ('sort',):
         flag = op[-1]
         op = op[:-1]
     elif op[0] == 'sort' and len(op) == 5:
@@ -216,6 +241,19 @@ def resolve(op, g, nw, attrs):
     if flag == '' or n == 0:
         return base, graph.effect(g, base, attrs)
     first = None
+    if flag == 'C':
+        # the refused variant that would close the LONGEST dependency circle (a link back along a chain of links)
+        best = None
+        for j in range(n):
+            c = concretise(op, n, nw, j)
+            e = graph.effect(g, c, attrs)
+            if first is None:
+                first = (c, e)
+            if e.cls in (ILLEGAL, CLASH):
+                d = _circle_length(g, c)
+                if best is None or d > best[0]:
+                    best = (d, c, e)
+        return (best[1], best[2]) if best else first
     for j in range(n):
         c = concretise(op, n, nw, j, last_only=(flag == 'J'))
         e = graph.effect(g, c, attrs)
